@@ -141,6 +141,31 @@ func c07Units(tier string, seed int64) []Unit {
 							viol("bad-seed-printed", "unparsable seed "+v.SeedStr)
 							return
 						}
+						// history fail -> rerun: the next run (another base seed) finds the failure through the fail
+						// file; if its report names a seed as well, that seed has to keep the same promise
+						if len(log.Files) > 0 {
+							cfgF := cfg
+							cfgF.Seed = sd ^ 0x5555
+							envF := NewEnv(full, prog.Base)
+							logF := RunCheck(prog, envF, cfgF)
+							c.R.Evals++
+							if vF := logF.Verdict(); (vF.Class == "failed" || vF.Class == "panic") && vF.After == 0 && vF.SeedStr != "" && len(envF.Invs) > 0 {
+								psF, err := strconv.ParseUint(vF.SeedStr, 10, 64)
+								CleanFailFiles()
+								cfgG := cfg
+								cfgG.Seed, cfgG.NoFailFile = psF, true
+								envG := NewEnv(full, prog.Base)
+								RunCheck(prog, envG, cfgG)
+								c.R.Evals++
+								if err != nil || len(envG.Invs) == 0 || envG.Invs[0].Draws != envF.Invs[0].Draws {
+									got := "<none>"
+									if len(envG.Invs) > 0 {
+										got = envG.Invs[0].Draws
+									}
+									viol("seed-printed-for-fail-file-failure-does-not-reproduce", fmt.Sprintf("the rerun failed through the saved fail file (case drew %s) and printed -rapid.seed=%s; with that seed the first test case drew %s", envF.Invs[0].Draws, vF.SeedStr, got))
+								}
+							}
+						}
 						CleanFailFiles()
 						cfg2 := cfg
 						cfg2.Seed = ps
@@ -159,6 +184,10 @@ func c07Units(tier string, seed int64) []Unit {
 						}
 						if v2.Class != v.Class || v2.After != 0 {
 							viol("printed-seed-not-after-0", fmt.Sprintf("with -rapid.seed=%d: %s after %d tests (want %s after 0)", ps, v2.Class, v2.After, v.Class))
+						}
+						// run 2 was made without fail files: its report names the seed only, and that must be the same seed again
+						if (v2.Class == "failed" || v2.Class == "panic") && v2.After == 0 && v2.SeedStr != v.SeedStr {
+							viol("seed-printed-without-failfile-differs", fmt.Sprintf("run 1 printed -rapid.seed=%s; run 2 (-rapid.nofailfile, -rapid.seed=%d, fails after 0 tests) printed -rapid.seed=%s", v.SeedStr, ps, v2.SeedStr))
 						}
 						if ps == 0 {
 							viol("seed-zero-printed", "seed 0 means 'random' and can not reproduce anything")
